@@ -375,6 +375,11 @@ def gen_task(rng, tier, focus):
         struct = {'source': source, 'ops': [['chain', sa, la, ids[0], 0.0], ['chain', sb, lb, ids[1], 45.0],
                                             ['copy', 0, ids[2], 90.0, rng.randrange(1 << 20), 0.0],
                                             ['copy', 1, ids[3], 90.0, rng.randrange(1 << 20), 0.0]]}
+        if rng.random() < 0.6:
+            # ... followed by one more, different, molecule: a molecule type numbered after the merged ones
+            le = rng.randint(5, 6)
+            other = rng.choice([c for c in 'ABCDEFG' if c not in ids])
+            struct['ops'].append(['chain', rng.randrange(0, max(1, nres - le)), le, other, 180.0])
         task['structure'] = struct
         groups = split_argv(task['argv'])
         argv = [a for g in groups if g[0] not in ('-merge', '-sep', '-go', '-ss') for a in g]
@@ -818,6 +823,9 @@ def compare_topologies(base, var, variant, argv):
             continue
         for (na, ra, xa), (nb, rb, xb) in zip(ca, cb):
             want = expected_position(variant, xa)
+            if any(w <= -999.9995 or w >= 9999.9995 for w in want):
+                # the image does not fit the 8.3 coordinate columns of the PDB format: the written record cannot state it
+                continue
             err = max(abs(p - q) for p, q in zip(want, xb))
             if err > 0.0021:
                 bad_coords.append({'molecule': j, 'atom': na, 'resid': ra, 'expected': [round(v, 3) for v in want], 'actual': xb,
